@@ -76,6 +76,7 @@ Registered(s) == {m \in Mods : s.mod[m].reg}        \* present in the context's 
 Active(s, m) == s.mod[m].st \in {"running", "paused"}
 \* the context's module table in the order in which an iteration visits it: fixed by the names' hashes, or - for names that
 \* share a bucket - the order of registration (an insertion goes to the end of the chain, a removal shifts the rest back)
+IdxOf(m) == CHOOSE i \in 1..Len(Order) : Order[i] = m
 RegSeq(s) == IF Collide THEN s.tord ELSE SelectSeq(Order, LAMBDA m : m \in Registered(s))
 TableAdd(s, m) == IF Collide THEN [s EXCEPT !.tord = Append(@, m)] ELSE s
 TableRm(s, m) == IF Collide THEN [s EXCEPT !.tord = SelectSeq(@, LAMBDA x : x # m)] ELSE s
@@ -284,9 +285,16 @@ Step(s) ==
       [] f.k = "eval2" ->        \* after on_eval (f.a = answer)
             IF r.mod[m].st = "idle" /\ f.a THEN Push(r, Fr("start", m, TRUE, 0)) ELSE r
       [] f.k = "evalchk" ->      \* map iteration contract: the table changed under the iteration
-            IF m \notin Registered(r) THEN r                                          \* current entry removed: go on
+            \* the scan goes on over the table as it is now: what is registered behind the current position (also what was registered
+            \* there during the callback) is still visited, what was deregistered is not.  (Names sharing a bucket: the chain shifts;
+            \* the entries not yet visited keep their order - the configurations with Collide do not register from callbacks.)
+            LET after == IF Collide THEN r.stack[1].b
+                         ELSE SelectSeq(Order, LAMBDA x : x \in Registered(r) /\ IdxOf(x) > IdxOf(m))
+                go == [r EXCEPT !.stack[1].b = after]
+            IN
+            IF m \notin Registered(r) THEN go                                         \* current entry removed: go on
             ELSE IF Cardinality(Registered(r)) # f.a THEN Pop(r)                      \* another entry added/removed: the pass ends here
-            ELSE r
+            ELSE go
       [] f.k = "lstart" ->       \* loop_start(): LOOPING, evaluation pass, "loop started" notification
             LET s1 == [r EXCEPT !.ctx.st = "looping", !.ctx.quit = FALSE, !.ctx.qcode = 0]
             IN Push(Push(s1, Fr("lstart2", NoMod, 0, 0)), Fr("evalpass", NoMod, 0, RegSeq(s1)))
